@@ -295,8 +295,9 @@ pub struct Pools {
     pub seeds: Vec<SeedDoc>,
     /// (seed index, kind of exhaustive fault, position) enumerated for the quick tier
     pub exhaustive: Vec<(u32, u8, u32)>,
-    /// the subset enumerated by the quick tier (every truncation point only for documents of at most
-    /// 1 KiB and for the generated ones; every third one for the larger sample documents)
+    /// the subset enumerated by the quick tier (every truncation point for documents of at most 1 KiB
+    /// and for the generated ones, every third one for the larger sample documents, every fourth one
+    /// and 16 bytes of bit flips for FFI envelopes, 40 bytes of bit flips for protobuf encodings)
     pub exhaustive_quick: Vec<(u32, u8, u32)>,
     pub schemas: Vec<Schema>,
     pub requests: Vec<Request>,
@@ -597,11 +598,31 @@ pub fn pools() -> &'static Pools {
             .iter()
             .copied()
             .filter(|(si, kind, pos)| {
-                if *kind != 0 {
+                if *kind == 6 {
                     return true;
                 }
                 let sd = &seeds[*si as usize];
-                sd.bytes.len() <= 1024 || sd.name.starts_with("gen_") || pos % 3 == 0
+                // FFI envelopes repeat a document that is enumerated in its own right: thinned out here
+                let envelope = sd.name.starts_with("ffi_");
+                match *kind {
+                    0 => {
+                        if envelope {
+                            pos % 4 == 0
+                        } else {
+                            sd.bytes.len() <= 1024 || sd.name.starts_with("gen_") || pos % 3 == 0
+                        }
+                    }
+                    1 => {
+                        if envelope {
+                            *pos < 16 * 8
+                        } else if sd.name.starts_with("proto") {
+                            *pos < 40 * 8
+                        } else {
+                            true
+                        }
+                    }
+                    _ => true,
+                }
             })
             .collect();
         Pools { bundles, seeds, exhaustive, exhaustive_quick, schemas, requests, entities }
